@@ -13,6 +13,11 @@ and `rowCount L` rows (`more_linear`, preceded by the three `-1` entries of `lef
 columns of the exponential cone), plus `3 + L` second-order cones `[c+2, c+1, c]` (head first) on
 the triples.  Everything else (rows, bounds, cost, cones) is carried over and `xmat` becomes empty.
 
+Row 0 of a block is `t + exp(cut_lower)·α0 ≤ x_{i1}` (the repaired code; before the repair the entry
+at `α0` was missing, so that the part of the cone below the lower cut contributed `0`).  The value
+`np.exp(cut_lower)` is the model parameter `elo` (the float `np.exp` is trusted to be `exp(cut_lower)`
+to within rounding; the model and the tie use the float the code actually writes).
+
 The model is the *pure* function: rsome's code extends `self.qmat` in place (`qmat = self.qmat;
 qmat += …`), which also changes the source program; that side effect is not part of the model.
 The Python code requires `degree ≥ 1` (`v_idx[0]` raises `IndexError` for `degree = 0`); the model
@@ -47,10 +52,12 @@ def yRow (L q : ℕ) : List (ℕ × K) :=
   else if q = 2 then [(6, 1)]
   else [(5 + q, 1)]
 
-/-- sparse row `r` of `more_linear` (block-local column numbers) -/
-def blockRow (L : ℕ) (cLo cHi : K) (r : ℕ) : List (ℕ × K) :=
+/-- sparse row `r` of `more_linear` (block-local column numbers).  Row 0 is
+`data = [1, np.exp(cut_lower)]`, `col_idx = [t_idx, alpha_idx[0]]`: `t + exp(cLo)·α0 - x_{i1} ≤ 0`;
+`elo` is the value the code writes for `np.exp(cut_lower)`. -/
+def blockRow (L : ℕ) (cLo cHi elo : K) (r : ℕ) : List (ℕ × K) :=
   match r with
-  | 0 => [(0, 1)]
+  | 0 => [(0, 1), (3, elo)]
   | 1 => [(1, 1), (2, 1)]
   | 2 => [(3, 1), (4, 1)]
   | 3 => [(2, 20 / 2 ^ L / 24), (4, 23 / 24), (5, 1 / 4), (7, 1 / 24), (8, -1)]
@@ -92,8 +99,8 @@ def off (P : ConeProg K) (L k : ℕ) : ℕ := P.lp.nc + k * numCols L
 
 /-- row `r` of the block of the `k`-th exponential cone, global column numbers:
 `sp.hstack((left_linear, more_linear))` -/
-def globalRow (P : ConeProg K) (L : ℕ) (cLo cHi : K) (k r : ℕ) : List (ℕ × K) :=
-  leftRow (P.xmat.getD k []) r ++ (blockRow L cLo cHi r).map fun e => (off P L k + e.1, e.2)
+def globalRow (P : ConeProg K) (L : ℕ) (cLo cHi elo : K) (k r : ℕ) : List (ℕ × K) :=
+  leftRow (P.xmat.getD k []) r ++ (blockRow L cLo cHi elo r).map fun e => (off P L k + e.1, e.2)
 
 /-- the `3 + degree` cones of block `k`:
 `[list(left_width + num_vars + np.array([2, 1, 0]) + q*3) for q in range(3+degree)]` -/
@@ -101,8 +108,12 @@ def blockCones (P : ConeProg K) (L k : ℕ) : List (List ℕ) :=
   (List.range (3 + L)).map fun q =>
     [off P L k + numVars L + 2 + q * 3, off P L k + numVars L + 1 + q * 3, off P L k + numVars L + 0 + q * 3]
 
-/-- `GCProg.to_socp(degree = L, cuts = (cLo, cHi))`, the returned program -/
-def toSocp (P : ConeProg K) (L : ℕ) (cLo cHi : K) : ConeProg K :=
+/-- `GCProg.to_socp(degree = L, cuts = (cLo, cHi))`, the returned program.  `elo` is the value of the
+coefficient `np.exp(cut_lower)` of `α0` in row 0 of every block (a parameter: `exp` does not exist in
+a generic field; the tie passes the code's float exactly, the theorems over `ℝ` take
+`elo = Real.exp cLo`; with `elo = 0` the coefficients are those of the program rsome built before the
+repair - the stored pattern then has one extra explicit zero per block). -/
+def toSocp (P : ConeProg K) (L : ℕ) (cLo cHi elo : K) : ConeProg K :=
   let nx := P.xmat.length
   let R := rowCount L
   let W := numCols L
@@ -110,7 +121,7 @@ def toSocp (P : ConeProg K) (L : ℕ) (cLo cHi : K) : ConeProg K :=
             nc := P.lp.nc + nx * W
             a := fun i j =>
               if i < P.lp.nr then (if j < P.lp.nc then P.lp.a i j else 0)
-              else entry (globalRow P L cLo cHi ((i - P.lp.nr) / R) ((i - P.lp.nr) % R)) j
+              else entry (globalRow P L cLo cHi elo ((i - P.lp.nr) / R) ((i - P.lp.nr) % R)) j
             b := fun i => if i < P.lp.nr then P.lp.b i else 0
             eq := fun i => if i < P.lp.nr then P.lp.eq i else blockEq ((i - P.lp.nr) % R)
             ub := fun j => if j < P.lp.nc then P.lp.ub j else none
@@ -118,7 +129,7 @@ def toSocp (P : ConeProg K) (L : ℕ) (cLo cHi : K) : ConeProg K :=
             c := fun j => if j < P.lp.nc then P.lp.c j else 0 }
     st := fun i j =>
       if i < P.lp.nr then (decide (j < P.lp.nc) && P.st i j)
-      else stored (globalRow P L cLo cHi ((i - P.lp.nr) / R) ((i - P.lp.nr) % R)) j
+      else stored (globalRow P L cLo cHi elo ((i - P.lp.nr) / R) ((i - P.lp.nr) % R)) j
     qmat := P.qmat ++ (List.range nx).flatMap fun k => blockCones P L k
     xmat := [] }
 
